@@ -50,6 +50,11 @@ def cases(rng, tier):
             comp = (b + c, b, N5 - c - 2 * b) if rng.random() < 0.5 else (b, b + c, N5 - c - 2 * b)
         sq = gen.spell(gen.arrange(comp, rng), rng)
         yield Case(["q region " + sq, "q specregion " + sq], {"kind": "long-chain-next-to-threshold"})
+    # backend objects built directly from lower / mixed case text (the backend upper-cases on its own)
+    for comp in [(5, 0, 15), (8, 1, 11), (1, 8, 11), (6, 6, 8), (3, 2, 15), (0, 0, 9), (10, 0, 0), (0, 10, 0), (5, 5, 0)] + [(rng.randint(0, 9), rng.randint(0, 9), rng.randint(1, 20)) for _ in range(10 if tier == "quick" else 100)]:
+        sq = gen.spell(gen.arrange(comp, rng), rng)
+        raw = "".join(c.lower() if rng.random() < 0.7 else c for c in sq)
+        yield Case(["backendq %s region" % _hex6(raw), "backendq %s specregion" % _hex6(raw)], {"kind": "backend-object-from-mixed-case"})
     # very long chains (> 1000 residues, lengths that are not round numbers)
     for sq in gen.very_long(rng, tier != "quick"):
         yield Case(["q %s %s%s" % (q.split(" ")[0], sq, "".join(" " + a for a in q.split(" ")[1:])) for q in ['region']], {"kind": "very-long"})
